@@ -20,7 +20,11 @@ func VerifNewClient(conn *websocket.Conn, opt *Options) *VerifClient {
 	if opt == nil {
 		opt = &Options{}
 	}
-	return &VerifClient{c: newEndpointClient(conn, opt)}
+	c := newEndpointClient(conn, opt)
+	if opt.Siding {
+		c.setToken(func() (string, error) { return "verif-token", nil })
+	}
+	return &VerifClient{c: c}
 }
 
 // Serve runs the transport's serve loop; it returns when the loop exits.
